@@ -7,7 +7,7 @@ from . import c05
 PROPERTY = 'C09'
 BUDGET = {'quick': {'seconds': 1200, 'xreplay_every': 100}, 'thorough': {'seconds': 6000, 'xreplay_every': 2000}}
 NONTRIVIAL = {'quick': ['pubrel-written', 'pubrel-retransmitted', 'publish-retransmitted', 'exchange-completed', 'reconnect-in-publish-stage',
-                        'reconnect-in-pubrel-stage', 'pubrel-resumed', 'stray-pubrec', 'duplicate-pubrec']}
+                        'reconnect-in-pubrel-stage', 'pubrel-resumed', 'stray-pubrec', 'duplicate-pubrec', 'early-publish']}
 
 KINDS = ('PUBREC', 'PUBCOMP', 'advance', 'publish2', 'publish1', 'reconnect')
 
@@ -67,10 +67,20 @@ def monitor(flow):
 
 def h_qos2(eng, params):
     flow = Flow(eng, params['profile'], clean=not params['persistent'], ver=params.get('ver', 311))
-    flow.open()
-    flow.set_window()
-    for i in range(params['n']):
+    if params.get('early'):
+        # the first QoS 2 publish is issued between connect() and CONNACK
+        flow.open(connack=False)
         flow.publish(qos=2)
+        flow.connack(0)
+        flow.set_window()
+        eng.count('early-publish')
+        for i in range(params['n'] - 1):
+            flow.publish(qos=2)
+    else:
+        flow.open()
+        flow.set_window()
+        for i in range(params['n']):
+            flow.publish(qos=2)
     if params.get('with_qos1'):
         flow.publish(qos=1)
     npub = 0
@@ -89,7 +99,14 @@ def h_qos2(eng, params):
         elif kind == 'reconnect':
             stage_rel = any(p['type'] == 'PUBREL' for (st, c, p) in flow.all_packets())
             flow.lose()
-            flow.open(clean=False, sp=1)
+            if npub < 2 and eng.choose(2, 'publish-before-connack'):
+                flow.open(clean=False, connack=False)
+                flow.publish(qos=2)
+                npub += 1
+                flow.connack(1)
+                eng.count('early-publish')
+            else:
+                flow.open(clean=False, sp=1)
             eng.count('reconnect-in-pubrel-stage' if stage_rel else 'reconnect-in-publish-stage')
         else:
             c05.deliver_ack(flow, kind)
@@ -113,6 +130,9 @@ def shards(tier):
                             continue
                         out.append(('qos2', {'profile': profile, 'persistent': persistent, 'n': n, 'k': 6 if T else (4 if n == 1 else 3), 'first': first, 'second': second,
                                              'with_qos1': n == 2}))
+                        if n == 1 and persistent and (T or first in ('PUBREC', 'advance')):
+                            out.append(('qos2', {'profile': profile, 'persistent': persistent, 'n': n, 'k': 6 if T else 4, 'first': first, 'second': second,
+                                                 'with_qos1': False, 'early': True}))
     out.append(('qos2', {'profile': 'pubsubs', 'persistent': True, 'n': 1, 'k': 3, 'first': 'PUBREC', 'second': 'advance', 'ver': 31, 'with_qos1': False}))
     return out
 
@@ -121,7 +141,7 @@ META = {
     'rule': 'connected publishing client (clean or persistent), window symbolic, 1..2 QoS 2 publishes (+ one QoS 1), k free steps from {PUBREC, PUBCOMP (identifier '
             'symbolic), advance(dt symbolic), publish QoS 2, publish QoS 1, loss + rebuilt protocol + persistent connect + CONNACK}, then 200 s; the order of '
             'PUBLISH/PUBREL per identifier is read from the reference-parsed wire log of all connections',
-    'bounds': {'quick': 'k=4 around one QoS 2 exchange, k=3 around two QoS 2 and one QoS 1 exchange; at most 2 further publishes', 'thorough': 'k=6'},
+    'bounds': {'quick': 'the first publish optionally issued before CONNACK (persistent session), also on reconnect; k=4 around one QoS 2 exchange, k=3 around two QoS 2 and one QoS 1 exchange; at most 2 further publishes', 'thorough': 'k=6'},
     'stubs': ['fake transport', 'twisted task.Clock', 'jitter: fixed sequence'],
     'outside': ['histories longer than k steps', 'identifier wrap-around (C17)'],
     'assumptions': ['acknowledgement types fit the exchange they may address'],
